@@ -31,7 +31,7 @@ LEVEL_NOTE = ('A window end that coincides with a tabulated wavelength may inclu
 RULE = ("cases: package configurations; executions: one call per (chunk size, window), one evaluation per file checked; a state is (configuration, window, chunk); non-trivial = distinct "
         "(configuration, window, chunk) whose window holds at least one wavelength and whose chunk size is smaller than the number of wavelengths in the window or divides it")
 ASSUMPTIONS = ["all SED files of a package share one wavelength grid", "window ends exactly on a tabulated wavelength are ambiguous"]
-REQUIRED_CLASSES = ['chunk-divides-range', 'chunk-does-not-divide-range', 'chunk==1', 'single-wavelength-window', 'empty-window', 'default-window', 'window-end-on-wavelength',
+REQUIRED_CLASSES = ['seds-regenerated-then-convolved-with-overwrite', 'chunk-divides-range', 'chunk-does-not-divide-range', 'chunk==1', 'single-wavelength-window', 'empty-window', 'default-window', 'window-end-on-wavelength',
                     'permuted-parameter-table', 'multi-aperture', 'sed-files-wav-ascending', 'seds-in-subdirs-and-gz', 'seds-stored-in-erg/cm2/s', 'convolved-again-after-listing', 'cube-nearest', 'cube-midway', 'cube-outside', 'cube-wavelength-in-other-unit']
 TIMEOUT = {'quick': 600, 'thorough': 3000}
 
@@ -268,6 +268,39 @@ def run_case(ctx, case, rec, d):
             except Exception as e:
                 from mc.runner import exc_signature
                 rec.violation('mono|after-listing|' + exc_signature(e), {'after_listing': True}, {'type': type(e).__name__, 'msg': str(e)[:300]})
+            # ---- the SEDs of the package are regenerated (same grid, three times the fluxes) and the package is convolved again
+            # with overwrite, the arguments given by position: every file must hold the new fluxes
+            try:
+              for factor in (3.0, 1.0):          # ... and then put back as they were
+                for m, nm in enumerate(names):
+                    fl = np.array([[cell(m, a, int(np.argmin(np.abs(w_asc - w)))) for w in wav_file] for a in range(n_ap)])
+                    lay = case.get('layout', 'flat')
+                    if case.get('funit', 'mJy') != 'mJy':
+                        fl = fl * 1e-26 * (pkgwriter.C_M_S / (np.asarray(wav_file) * 1e-6))[None, :]
+                    fl = fl * factor
+                    pkgwriter.write_sed_file(md, nm, wav_file, fl, fl / 8.0, unit='mJy' if case.get('funit', 'mJy') == 'mJy' else 'erg s-1 cm-2', apertures_au=ap, subdir=(nm[:6] if lay != 'flat' and m % 2 else None), gz=(lay != 'flat' and m != 1))
+                convolve_model_dir_monochromatic(md, True, 8)
+                rec.trans()
+                rec.cls('seds-regenerated-then-convolved-with-overwrite')
+                nfiles = 0
+                for fpath in sorted(glob.glob(os.path.join(md, 'convolved', '*.fits'))):
+                    with fits.open(fpath) as h:
+                        t = h['CONVOLVED FLUXES'].data
+                        rn = [str(x).strip() for x in t['MODEL_NAME']]
+                        ff = np.asarray(t['TOTAL_FLUX'], float).reshape(len(rn), n_ap)
+                        fw = h[0].header.get('FILTWAV')
+                    nfiles += 1
+                    rec.ev()
+                    wi = int(np.argmin(np.abs(w_asc - fw)))
+                    exp = factor * np.array([[cell(names.index(nm), a, wi) for a in range(n_ap)] for nm in rn])
+                    if not np.allclose(ff, exp, rtol=1e-11):
+                        rec.violation('mono|content|stale-after-overwrite', {'file': os.path.basename(fpath)}, {'problem': 'after the SEDs were regenerated and the package convolved again with overwrite, %s holds %r; the SEDs now say %r' % (os.path.basename(fpath), ff[0], exp[0])})
+                        break
+                if nfiles != n_wav:
+                    rec.violation('mono|missing|after-overwrite', {}, {'files': nfiles, 'n_wav': n_wav})
+            except Exception as e:
+                from mc.runner import exc_signature
+                rec.violation('mono|after-overwrite|' + exc_signature(e), {'after_overwrite': True}, {'type': type(e).__name__, 'msg': str(e)[:300]})
         if not sampled and win[0] is not None and len(must) >= 2:
             rec.sample({'config': {k: v for k, v in case.items()}, 'wavelengths': w_asc, 'window': [lo, hi], 'chunk_sizes_tried': chunks, 'files_expected_for_wavelength_indices': must})
             sampled = True
